@@ -88,6 +88,9 @@ def differential(chk, drv, rng, tier):
                     chk.violation("C16/differential/tree-roundtrip", {"body": body[:300]})
             if o["size"] != len(body):
                 chk.violation("C16/differential/tree-size", {"got": o["size"], "want": len(body)})
+            if "interleaved" in o and o["interleaved"] != [len(exp["entries"])] * 3:
+                chk.violation("C16/differential/tree-iterated-twice-at-once", {"entries": len(exp["entries"]),
+                                                                                "seen_by_first_second_later_iteration": o["interleaved"]})
             if len(exp["entries"]) >= 2:
                 chk.nontrivial(("tree", o["id"]))
         elif kind == "commit":
@@ -243,6 +246,12 @@ def big_tree_model(rng, versions=40, entries=5200):
                         msg=(b"big message\n" + b"z" * 1200000 + b"\n") if v == 1 else b"v%d\n" % v)
     m.refs["refs/heads/main"] = prev
     m.refs["refs/tags/bigtag"] = G.Tag(prev, name=b"bigtag", msg=b"t" * 1100000 + b"\n")
+    # three sibling directories of > 1 MiB each: consecutive huge objects in the second pass's stream
+    sib = []
+    for k in range(3):
+        ents = [G.Entry(G.FILE, b"sibling-%d-file-%06d-%s.txt" % (k, j, b"w" * 170), blobs[(j + k) % 7]) for j in range(entries - 100 * k)]
+        sib.append(G.Entry(G.TREE, b"huge%d" % k, G.Tree(ents, presorted=True)))
+    m.refs["refs/heads/siblings"] = G.Commit(G.Tree(sib), [], cts=1600001000, msg=b"huge siblings\n")
     return m
 
 
